@@ -13,6 +13,39 @@ from checks import blobs, common, drive
 from simworld import blobstore, prng
 
 
+def run_libpair(case) -> dict:
+    """["libpair", seed, fields, fl]: two blobs A and B are PROTECTED BY THE LIBRARY in one process (same root key, same SID); the stored A
+    is then altered at rest by overwriting some of its fields with B's (content, GCM nonce, wrapped CEK, key identifier ...).  The
+    altered record must fail or give A's plaintext - never B's or anything else."""
+    from checks import offline, plan as P
+    from ref import gkdi
+
+    _, seed, fields, fl = case
+    ops = [{"op": "load_key", "rk": 0},
+           {"op": "protect", "fl": fl, "sid": offline.SID_A, "rk": 0, "net": "offline", "data": 24},
+           {"op": "protect", "fl": fl, "sid": offline.SID_A, "rk": 0, "net": "offline", "data": 24},
+           {"op": "unprotect", "fl": fl, "net": "offline", "blob": {"from_op": 1, "graft": {"from_op": 2, "fields": list(fields)}}},
+           {"op": "unprotect", "fl": fl, "net": "offline", "blob": {"from_op": 1}}]
+    plan = {"seed": seed, "clock_ft": gkdi.interval_start_filetime(365, 3, 4) + seed, "root_keys": [[5, "SHA256", ("DH", "ECDH_P256")[seed % 2]]],
+            "caller_sids": [offline.SID_A], "ctx": {"kind": "stub", "legs": 2, "sig": 16}, "ops": ops}
+    tr = P.execute_plan(plan)
+    a, b_, crossed, plain = tr.ops[1], tr.ops[2], tr.ops[3], tr.ops[4]
+    viol = None
+    probes = {"library_made_pairs": 1}
+    if a.outcome.kind != "ok" or b_.outcome.kind != "ok" or plain.outcome.kind != "ok" or plain.outcome.value != a.plaintext:
+        raise common.HarnessError(f"library-made pair does not round-trip: {a.outcome.brief()} {b_.outcome.brief()} {plain.outcome.brief()}")
+    out = crossed.outcome
+    if out.kind == "ok" and out.value != a.plaintext:
+        whose = "the plaintext of blob B" if out.value == b_.plaintext else "other bytes"
+        viol = common.violation("C04", "different-plaintext", "library-made-pair", "+".join(fields), "", "",
+                                f"blob A with {fields} taken from blob B (both protected by the library in this process) decrypted to {whose}")
+    elif out.kind == "ok":
+        probes["outcome_same"] = 1
+    else:
+        probes["outcome_" + out.kind] = 1
+    return {"viol": viol, "digest": tr.world.digest(), "key": common.key_hash(case), "fired": {"field": len(fields)}, "probes": probes, "vtime_ns": 0}
+
+
 def run_concurrent(case) -> dict:
     """["conc", seed, net, cross]: blob A (valid) and blob B' (blob B modified at rest) are unprotected by two overlapping async
     calls on one loop.  B' must fail or give B's plaintext - never anything else, in particular not A's."""
@@ -20,7 +53,7 @@ def run_concurrent(case) -> dict:
     from ref import cms, gkdi
     import random as _r
 
-    family, seed, net, cross = case
+    family, seed, net, cross = case[:4]
     rng = _r.Random(seed)
     pos = [361 + seed % 3, rng.randrange(32), rng.randrange(32)]
     specA = {"rk": 0, "sid": offline.SID_A, "pos": pos, "mode": "nonce", "data": 20, "salt": 1000 + seed}
@@ -48,6 +81,9 @@ def run_concurrent(case) -> dict:
         ops = [{"op": "unprotect", "fl": fls[k], "net": net, "blob": (specBm, specA)[k % 2], "group": None} for k in range(5)]
         if order:
             ops = ops[1:]
+    elif family == "tconc":
+        # caller threads of one process (sync API): the valid blob twice and the modified one, all at once
+        ops = [{"op": "unprotect", "fl": "thread", "net": net, "blob": b_, "group": 1} for b_ in ((specA, specBm, specA) if order else (specBm, specA))]
     else:
         ops = [{"op": "unprotect", "fl": "async", "net": net, "blob": specA, "group": 1}, {"op": "unprotect", "fl": "async", "net": net, "blob": specBm, "group": 1}]
         if order:
@@ -55,18 +91,20 @@ def run_concurrent(case) -> dict:
     plan = {"seed": seed, "clock_ft": gkdi.interval_start_filetime(365, 0, 0), "root_keys": [[5, "SHA256", "DH"]], "caller_sids": [offline.SID_A],
             "ctx": {"kind": "stub", "legs": 2, "sig": 16}, "latency_us": [1, rng.choice((50, 3000))],
             "ops": ([{"op": "load_key", "rk": 0}] if net == "offline" else []) + ops}
+    if family == "tconc":
+        plan["threads"] = case[4]
     tr = P.execute_plan(plan)
     viol = None
-    probes = {"concurrent_pairs": 1} if family == "conc" else {"shared_cache_histories": 1}
-    how = "async-concurrent" if family == "conc" else "history"
+    probes = {"concurrent_pairs": 1} if family == "conc" else ({"shared_cache_histories": 1} if family == "hist" else {"thread_pairs": 1, "thread_overlap": tr.world.stats.get("toverlap", 0)})
+    how = {"conc": "async-concurrent", "hist": "history", "tconc": "thread-concurrent"}[family]
     for ot in tr.ops:
         if ot.op["op"] != "unprotect":
             continue
         out = ot.outcome
         if not ot.op["blob"].get("faults"):
-            if family == "hist" and (out.kind != "ok" or out.value != ptA):
+            if family in ("hist", "tconc") and (out.kind != "ok" or out.value != ptA):
                 viol = viol or common.violation("C04", "valid-blob-after-rejected-one", how, out.kind if out.kind != "ok" else "other-bytes", "", "",
-                                                f"the valid blob A, unprotected on the cache that saw the modified blob before, gave {out.brief()} {out.exc!r}")
+                                                f"the valid blob A, unprotected {'on the cache that saw the modified blob before' if family == 'hist' else 'while another thread unprotects the modified blob'}, gave {out.brief()} {out.exc!r}")
             continue
         if out.kind == "ok" and out.value != ptB:
             whose = "the plaintext of the OTHER blob" if out.value == ptA else "other bytes"
@@ -89,13 +127,13 @@ class C04(common.Check):
             "2-4 site corruption and field-targeted overwrites (lengths, OIDs, nonce, wrapped CEK, key-identifier fields, ciphertext, tag) "
             "located with ref.cms' offset map; algorithm substitution (content-encryption OID rewritten to every AES mode of the NIST arc x "
             "parameter shapes x content cut to blocks, all 256 last IV bytes for the CBC OIDs); flips/truncations of blobs with > 1 MiB content; pairs of overlapping async unprotects (valid blob A, modified blob B' carrying A's key "
-            "identifier / nonce / wrapped CEK / content) on one simulated loop, online and offline; the same pairs as histories on one shared "
-            "cache (B' rejected, A, B' again, A, B'); every flip / truncation of blobs whose plaintext is itself a blob (a secret protected twice). Non-trivial = stored bytes differ from the base blob; distinct = distinct (blob, faults).")
+            "identifier / nonce / wrapped CEK / content) on one simulated loop, online and offline; the same pairs from caller threads of one process (deterministic thread scheduler) and as histories on one shared "
+            "cache (B' rejected, A, B' again, A, B'); pairs of blobs protected by the library in one process with fields of one grafted onto the other; every flip / truncation of blobs whose plaintext is itself a blob (a secret protected twice). Non-trivial = stored bytes differ from the base blob; distinct = distinct (blob, faults).")
     components = {"client": "real (ncrypt_unprotect_secret, DPAPINGBlob.unpack, KeyCache, key derivation, AES-KW/GCM via cryptography)",
                   "blob store": "simulated (fault injection at rest)", "network": "simulated, no DC reachable (attempts observed at the seam)",
                   "base blobs": "reference encoder (ref.cms) and the library's own protect"}
     assumptions = ["AES-KW and AES-GCM from the cryptography package are trusted primitives"]
-    required_fired = ("rot", "tear", "algsub", "big_content", "concurrent_pairs", "outcome_raise", "outcome_same", "shared_cache_histories", "nested_plaintext")
+    required_fired = ("rot", "tear", "algsub", "big_content", "concurrent_pairs", "outcome_raise", "outcome_same", "shared_cache_histories", "nested_plaintext", "thread_pairs", "thread_overlap", "library_made_pairs")
 
     def exhaustive(self, tier):
         return tier == "thorough"
@@ -179,13 +217,25 @@ class C04(common.Check):
         # histories on one shared cache: a modified blob is rejected, a valid one is unprotected, the modified one comes back
         for i in range(300 if tier == "quick" else 12000):
             out.append(["hist", i, ("online", "offline")[i % 2], ("key_info", "key_identifier", "enc_cek", "content", "flip", "tagflip")[i % 6]])
+        # blobs protected by the library itself in one process, fields of one grafted onto the other
+        GRAFTS = (["enc_content"], ["enc_content", "gcm_nonce"], ["gcm_nonce"], ["enc_cek"], ["enc_cek", "key_identifier"], ["key_identifier"], ["kid.key_info"],
+                  ["enc_content", "gcm_nonce", "enc_cek"], ["enc_content", "gcm_nonce", "kid.key_info"])
+        for i in range(len(GRAFTS) * (8 if tier == "quick" else 200)):
+            out.append(["libpair", i, GRAFTS[i % len(GRAFTS)], ("sync", "async")[(i // len(GRAFTS)) % 2]])
+        from checks import threadpure
+
+        for i in range(300 if tier == "quick" else 12000):
+            out.append(["tconc", i, ("online", "offline", "offline")[i % 3], ("tagflip", "content", "key_info", "tagflip", "content", "enc_cek", "flip", "key_identifier")[(i // 3) % 8],
+                        {"mode": "marks", "q": (0.7, 0.9, 1.0)[(i // 2) % 3], "p": 0.0} if i % 2 else ({"mode": "prob", "p": (0.05, 0.3, 0.5)[(i // 4) % 3]} if i % 4 else threadpure.policy_for(i // 4))])
         # two overlapping async unprotects on one loop: a valid blob and a modified one that borrows parts of the valid one
         for i in range(400 if tier == "quick" else 20000):
             out.append(["conc", i, ("online", "offline")[i % 2], ("key_info", "key_identifier", "enc_cek", "content", "flip", "tagflip")[i % 6]])
         return out
 
     def run_case(self, case):
-        if case[0] in ("conc", "hist"):
+        if case[0] == "libpair":
+            return run_libpair(case)
+        if case[0] in ("conc", "hist", "tconc"):
             return run_concurrent(case)
         bi, faults = case
         cat = blobs.catalogue(next(iter(blobs._CAT)))
@@ -222,7 +272,7 @@ class C04(common.Check):
         blobs.extra_blobs()
 
     def shrink(self, case):
-        if case[0] in ("conc", "hist"):
+        if case[0] in ("conc", "hist", "tconc", "libpair"):
             return
         bi, faults = case
         for i in range(len(faults)):
@@ -230,7 +280,9 @@ class C04(common.Check):
                 yield [bi, faults[:i] + faults[i + 1 :]]
 
     def sample_repr(self, case, res):
-        if case[0] in ("conc", "hist"):
+        if case[0] == "libpair":
+            return dict(zip(("kind", "seed", "fields_taken_from_the_other_blob", "flavour"), case))
+        if case[0] in ("conc", "hist", "tconc"):
             return dict(zip(("kind", "seed", "net", "what_of_A_is_grafted_into_B"), case))
         cat = blobs.catalogue(next(iter(blobs._CAT)))
         b = cat[case[0]] if case[0] < len(cat) else blobs.extra_blobs()[case[0] - len(cat)]
